@@ -24,7 +24,8 @@ import (
 // ---------------------------------------------------------------------------
 
 type C13Site struct {
-	Kind    string `json:"kind"`               // call | data | constexpr
+	Budget  int    `json:"budget,omitempty"`   // kind=budget: vm.MemoryBudget for the run
+	Kind    string `json:"kind"`               // call | data | constexpr | budget
 	CallIdx int    `json:"call_index"`         // kind=call
 	Fault   string `json:"fault_kind"`         // kind=call / constexpr
 	Variant string `json:"variant,omitempty"`  // kind=data: zero-divisor | index-range | nil-link | bad-pattern | dyn-string
@@ -78,7 +79,7 @@ func (c13Engine) Assumptions() []string {
 	}
 }
 func (c13Engine) Required(tier string) []string {
-	return []string{"hook_calls", "site/call", "site/data/zero-divisor", "site/data/index-range", "site/data/nil-link", "site/data/bad-pattern", "site/data/dyn-string", "site/constexpr", "multi_line_sources", "site_after_multibyte", "site_in_closure", "locations_checked"}
+	return []string{"hook_calls", "site/call", "site/data/zero-divisor", "site/data/index-range", "site/data/nil-link", "site/data/bad-pattern", "site/data/dyn-string", "site/constexpr", "site/budget", "multi_line_sources", "site_after_multibyte", "site_in_closure", "locations_checked"}
 }
 func (c13Engine) Decode(raw []byte) (interface{}, error) {
 	var sc C13Scenario
@@ -190,6 +191,16 @@ func (c13Engine) Gen(seed uint64, idx int, tier string) interface{} {
 	}
 	for _, v := range c13Variants {
 		sc.Sites = append(sc.Sites, C13Site{Kind: "data", Variant: v})
+	}
+	// budget exhaustion: the allocation at which the cumulative count reaches the budget fails
+	if len(ref.Allocs) > 0 {
+		sum := 0
+		for j, a := range ref.Allocs {
+			sum += a
+			if a > 0 && (tier == "thorough" || j == fr.Intn(len(ref.Allocs)) || j == 0) && len(sc.Sites) < 60 {
+				sc.Sites = append(sc.Sites, C13Site{Kind: "budget", Budget: sum})
+			}
+		}
 	}
 	// poisoned ConstExpr calls: every distinct CI/CS/CB call of the fault-free journal
 	seen := map[string]bool{}
@@ -414,6 +425,54 @@ func (c13Engine) Run(sci interface{}, ctx *RunCtx) *Finding {
 				return &Finding{Class: "C13/no-error-reported/" + site.Kind, Detail: fmt.Sprintf("%s: the run succeeded (%s) although the definition says it fails at %q (%s)\nsource: %s", label, Canon(out.Out), runeSlice(pr.Src, refErr.Node.start, refErr.Node.end), refErr.Msg, pr.Src)}
 			}
 			if f := checkErr(label, out.Err, refErr.Node, site); f != nil {
+				return f
+			}
+		case "budget":
+			// the run is given a budget that the j-th allocation exhausts; that allocation fails
+			w2 := NewWorld(false, nil, nil)
+			ref := NewRef(BuildEnv(w2, sc.Env))
+			if _, e := ref.Eval(sc.Tree); e != nil || ref.TooBig {
+				continue
+			}
+			var node *N
+			sum := 0
+			for j, a := range ref.Allocs {
+				sum += a
+				if sum >= site.Budget {
+					node = ref.AllocNodes[j]
+					break
+				}
+			}
+			if node == nil {
+				continue
+			}
+			if sc.Optimize && mayPrebuild(sc.Tree) {
+				continue // a collection the optimiser may build at compile time: the trace is not the run's
+			}
+			w1 := NewWorld(false, nil, nil)
+			envv := BuildEnv(w1, sc.Env).AsRep(sc.Rep)
+			saved := vm.MemoryBudget
+			vm.MemoryBudget = site.Budget
+			beginRun(-1, 0)
+			var out Outcome
+			if sc.API == "eval" {
+				out = sutEval(pr.Src, envv)
+			} else {
+				out = sutRun(machine, prog, envv)
+			}
+			vm.MemoryBudget = saved
+			ctx.Eval()
+			ctx.Count("site/budget", 1)
+			if ops >= 3 {
+				ctx.Nontrivial(fmt.Sprintf("%s|%v|%s|%s|%+v", pr.Src, sc.Layout, sc.Env, sc.Rep, site))
+			}
+			if out.Panicked {
+				return &Finding{Class: "C13/panic-escaped", Detail: label + ": a panic escaped: " + out.PanicVal + "\nsource: " + pr.Src}
+			}
+			if out.Err == nil {
+				continue // whether the budget is enforced is C06's business
+			}
+			if f := checkErr(label, out.Err, node, site); f != nil {
 				return f
 			}
 		case "constexpr":
